@@ -71,34 +71,80 @@ def thread_stages(profile, caps_quick, quick_cases, caps_thorough, thorough_case
     return {"quick": q, "thorough": t}
 
 
+ZIPF_GEN = ("cases = (generator class exact/approx, integer type u32/u64/i32/i64, min incl. negative and near-limit values, bin count n dense around "
+            "1, 2, 100, 101, 100+100m(+1,+99), powers of ten and random up to the tier's cap, skew alpha from {0, 1, 0.01-grid on [0,3], 1 +- 2^-k, large}, "
+            "engine words) drawn from rapidcheck generators with native shrinking; distinct = distinct 64-bit FNV hash of the case text; non-trivial = ")
+RULES.update({
+    "C06": ZIPF_GEN + "the variate drawn from the scripted 64-bit engine is within 1 ulp of a CDF breakpoint, or the result is the first or last bin",
+    "C18": ZIPF_GEN + "n >= 2 and every bin was compared with the long-double reference (exact class: value, monotonicity, last bin; approx class: "
+                      "bit-identity for n <= 100, last bin, 0.01-closeness for n >= 1000 and alpha in [0,3])",
+    "C19": ZIPF_GEN + "output sequences of length >= 16 with >= 2 distinct values were compared (twin / copy / copy-assigned / moved / move-assigned / "
+                      "re-sampled / shared between 2-8 threads)",
+})
+ZIPF_ASSUME = [
+    "admissible parameters only: n and n+1 representable in the integer type, min + n - 1 representable, finite alpha >= 0, table fits in memory (tier cap on n)",
+    "the uniform variate is recomputed with std::uniform_real_distribution<double>{0,1} on a copy of the scripted engine (libstdc++ 12)",
+    "reference CDF: Kahan-summed long-double partial sums of powl(i, -alpha); exact-class tolerance 4n*2^-53 + 1e-15",
+]
+
+
+def zipf_stages(profile, quick_cases, thorough_cases):
+    return {"quick": [{"variant": "zipf", "binary": "zipf_harness", "profile": profile, "cases_per_worker": quick_cases, "max_seconds": 300}],
+            "thorough": [{"variant": "zipf", "binary": "zipf_harness", "profile": profile, "cases_per_worker": thorough_cases, "max_seconds": 2400, "extra": ["--big"]}]}
+
+
+RULES["C20"] = ("cases = sequential histories over {Pin(thread, via CreateEpochGuard|GetProtectedEpochs), Unpin(thread), Forward(n up to 1000), ExitAndReplace(thread)} "
+                "generated by rapidcheck's state-machine mode (rc::state) against a reference set model, executed on one EpochManager with capacity-1 helper OS "
+                "threads that run one command at a time; every single forward is checked (list == model set, GetMinEpoch, live list nodes <= referenced "
+                "256-epoch ranges + 2), and the manager is destroyed at the end (no node may stay allocated); native rapidcheck shrinking; distinct = distinct "
+                "FNV hash of the executed command trace; non-trivial = a list node was retired while an older range was still pinned, or the manager was "
+                "destroyed with >= 3 nodes allocated")
+
+
+def seq_stages(quick_cases, thorough_cases):
+    return {"quick": [{"variant": f"seq_c{c}", "binary": "epoch_seq", "profile": "C20", "cases_per_worker": quick_cases, "max_seconds": 200} for c in (5, 3)],
+            "thorough": [{"variant": f"seq_c{c}", "binary": "epoch_seq", "profile": "C20", "cases_per_worker": thorough_cases, "max_seconds": 1500, "extra": ["--big"]}
+                         for c in (5, 3, 2)]}
+
+
 PROPS = {
-    "C01": {"kinds": ["EXCLUSION", "EXCLUSION-CONV", "TORN"], "stages": lock_stages("C01", 2500, 40000), "assumptions": LOCK_ASSUME},
-    "C02": {"kinds": ["STUCK", "FINAL_BUSY", "CRASH"], "stages": lock_stages("C02", 2500, 40000), "assumptions": LOCK_ASSUME},
-    "C03": {"kinds": ["VERSION-RESULT", "VERSION-REFRESH", "VERSION-X", "SNAPSHOT"], "stages": lock_stages("C03", 2500, 40000),
+    "C01": {"kinds": ["EXCLUSION", "EXCLUSION-CONV", "TORN"], "stages": lock_stages("C01", 8000, 60000), "assumptions": LOCK_ASSUME},
+    "C02": {"kinds": ["STUCK", "FINAL_BUSY", "CRASH"], "stages": lock_stages("C02", 8000, 60000), "assumptions": LOCK_ASSUME},
+    "C03": {"kinds": ["VERSION-RESULT", "VERSION-REFRESH", "VERSION-X", "SNAPSHOT"], "stages": lock_stages("C03", 8000, 60000),
             "assumptions": LOCK_ASSUME},
     "C07": {"kinds": ["BOOL", "STUCK", "FINAL_BUSY", "EXCLUSION", "EXCLUSION-CONV", "TORN", "CRASH", "CRASH-UAF"],
-            "stages": lock_stages("C07", 2500, 40000),
+            "stages": lock_stages("C07", 8000, 60000),
             "assumptions": LOCK_ASSUME + ["C07 cases use guard-level schedules only (switches between operations or when a call blocks), so that a hang, "
                                           "a busy lock at the end or an exclusion hit is attributable to guard ownership rather than to a protocol race"]},
-    "C08": {"kinds": ["RACE"], "stages": lock_stages("C08", 2500, 40000), "assumptions": LOCK_ASSUME},
+    "C08": {"kinds": ["RACE"], "stages": lock_stages("C08", 8000, 60000), "assumptions": LOCK_ASSUME},
     "C09": {"kinds": ["VERSION-VALUE"], "differential_kinds": ["STUCK", "FINAL_BUSY", "EXCLUSION", "EXCLUSION-CONV", "TORN"],
-            "stages": lock_stages("C09", 2500, 40000),
+            "stages": lock_stages("C09", 8000, 60000),
             "assumptions": LOCK_ASSUME + ["'no version value disturbs the lock-mode state' is decided metamorphically: a hang / busy lock / exclusion hit in a C09 case "
                                           "counts for C09 only if the same program and schedule with every SetVersion removed and initial version 0 is clean"]},
-    "C10": {"kinds": ["GAP", "EXCLUSION-CONV"], "stages": lock_stages("C10", 2500, 40000), "assumptions": LOCK_ASSUME},
-    "C11": {"kinds": ["ORDER"], "stages": lock_stages("C11", 2500, 40000), "assumptions": LOCK_ASSUME},
-    "C12": {"kinds": ["LEAK", "NODE_BOUND", "CRASH-UAF"], "stages": lock_stages("C12", 2500, 40000), "assumptions": LOCK_ASSUME},
-    "C05": {"kinds": ["IDRANGE", "IDSTABLE", "IDUNIQUE"], "stages": thread_stages("C05", [1, 2, 3, 4, 8], 250, [1, 2, 3, 4, 8], 5000),
+    "C10": {"kinds": ["GAP", "EXCLUSION-CONV"], "stages": lock_stages("C10", 8000, 60000), "assumptions": LOCK_ASSUME},
+    "C11": {"kinds": ["ORDER"], "stages": lock_stages("C11", 8000, 60000), "assumptions": LOCK_ASSUME},
+    "C12": {"kinds": ["LEAK", "NODE_BOUND", "CRASH-UAF"], "stages": lock_stages("C12", 8000, 60000), "assumptions": LOCK_ASSUME},
+    "C05": {"kinds": ["IDRANGE", "IDSTABLE", "IDUNIQUE"], "stages": thread_stages("C05", [1, 2, 3, 4, 8], 500, [1, 2, 3, 4, 8], 5000),
             "assumptions": THREAD_ASSUME},
-    "C14": {"kinds": ["STUCK", "FINAL_BUSY"], "stages": thread_stages("C14", [1, 2, 3, 4, 8], 250, [1, 2, 3, 4, 8], 5000), "assumptions": THREAD_ASSUME},
-    "C15": {"kinds": ["HB-REUSE", "HB-LIVE", "HB-EXIT"], "stages": thread_stages("C15", [2, 3, 4], 400, [1, 2, 3, 4, 8], 5000), "assumptions": THREAD_ASSUME},
-    "C04": {"kinds": ["PIN-LIST", "PIN-MIN"], "stages": thread_stages("C04", [2, 3, 4], 300, [2, 3, 4, 8], 4000), "assumptions": THREAD_ASSUME},
+    "C14": {"kinds": ["STUCK", "FINAL_BUSY"], "stages": thread_stages("C14", [1, 2, 3, 4, 8], 500, [1, 2, 3, 4, 8], 5000), "assumptions": THREAD_ASSUME},
+    "C15": {"kinds": ["HB-REUSE", "HB-LIVE", "HB-EXIT"], "stages": thread_stages("C15", [2, 3, 4], 800, [1, 2, 3, 4, 8], 5000), "assumptions": THREAD_ASSUME},
+    "C04": {"kinds": ["PIN-LIST", "PIN-MIN"], "stages": thread_stages("C04", [2, 3, 4], 700, [2, 3, 4, 8], 4000), "assumptions": THREAD_ASSUME},
     "C16": {"kinds": ["EPOCH-STEP", "CUR-DECREASED", "MIN-GT-CUR", "QUIESCENT-LIST", "QUIESCENT-MIN"],
-            "stages": thread_stages("C16", [2, 3, 4], 300, [2, 3, 4, 8], 4000), "assumptions": THREAD_ASSUME},
+            "stages": thread_stages("C16", [2, 3, 4], 700, [2, 3, 4, 8], 4000), "assumptions": THREAD_ASSUME},
     "C17": {"kinds": ["LIST-OWNER", "LIST-ORDER", "LIST-PREV", "LIST-STABLE", "GUARD-EPOCH", "GUARD-MOVE", "CRASH-UAF", "CRASH"],
-            "stages": thread_stages("C17", [2, 3, 4], 300, [2, 3, 4, 8], 4000), "assumptions": THREAD_ASSUME},
+            "stages": thread_stages("C17", [2, 3, 4], 700, [2, 3, 4, 8], 4000), "assumptions": THREAD_ASSUME},
+    "C06": {"kinds": ["ZIPF-RANGE", "ZIPF-INVCDF", "ZIPF-INVCDF-SEAM", "ZIPF-DEFAULT", "CRASH"], "stages": zipf_stages("C06", 100000, 600000),
+            "native_shrink": True, "assumptions": ZIPF_ASSUME},
+    "C18": {"kinds": ["ZIPF-CDF-VALUE", "ZIPF-CDF-MONOTONE", "ZIPF-CDF-LAST", "ZIPF-APPROX-EXACT", "ZIPF-APPROX-CLOSE", "ZIPF-APPROX-CLOSE-TAIL",
+                      "ZIPF-APPROX-CLOSE-NEAR1", "CRASH"], "stages": zipf_stages("C18", 9000, 40000), "native_shrink": True, "assumptions": ZIPF_ASSUME},
+    "C19": {"kinds": ["ZIPF-PURE", "ZIPF-SHARED", "ZIPF-REJECT", "CRASH"], "stages": zipf_stages("C19", 3500, 30000), "native_shrink": True,
+            "assumptions": ZIPF_ASSUME},
+    "C20": {"kinds": ["EPOCHSEQ", "CRASH", "CRASH-UAF"], "stages": seq_stages(1200, 6000), "native_shrink": True,
+            "assumptions": ["histories are sequential: helper threads execute one command at a time, nothing runs concurrently with ForwardGlobalEpoch",
+                            "at most one guard per thread; the observing main thread owns one ID, so capacity-1 worker threads",
+                            "list nodes are recognised as 64-byte-aligned allocations (global operator new/delete replaced in the harness)"]},
     "C13": {"kinds": ["PREP-STACK", "PREP-PHANTOM", "PREP-X", "PREP-VER", "PREP-VERIFY", "CVERSION-RESULT", "CVERSION-REFRESH", "CVERSION-X", "CSNAPSHOT"],
-            "stages": lock_stages("C13", 2500, 40000), "assumptions": LOCK_ASSUME},
+            "stages": lock_stages("C13", 8000, 60000), "assumptions": LOCK_ASSUME},
 }
 
 
@@ -139,7 +185,56 @@ MANIFEST_TEXT = {
                       "non-owning => no X registered, carried version == ghost version, then judged like an OptGuard.", "DESIGN.md 5/C13"),
 }
 
-NOT_APPLICABLE = [
-    {"property_id": p, "reason": "check under construction in this round (harness family not yet built); will be claimed once its check exists"}
-    for p in ["C04", "C05", "C06", "C14", "C15", "C16", "C17", "C18", "C19", "C20"]
-]
+
+
+def _thread_text(what, ref):
+    return {
+        "engine": "vsched + rapidcheck (harness/thread_harness, one binary per DBGROUP_MAX_THREAD_NUM in {1,2,3,4,8}; one forked process per case)",
+        "level": what,
+        "design_ref": ref,
+        "note": "Trusted base: the vsched shim (atomics, hash(thread::id) and sleeps renamed by a force-included prelude; SC interleavings; thread-exit destructors "
+                "scheduled), ghost tables updated adjacent to the API calls, rapidcheck generators, g++ 12 ASan/UBSan. shared_ptr/weak_ptr internals and plain fields are "
+                "not scheduling points. A pass means no counter-example among the generated histories x schedules.",
+        "technique": "property-based testing: rapidcheck-generated thread/guard/forward histories + generated schedules (incl. preemption inside thread-exit "
+                     "destructors) executed on the real IDManager/EpochManager under a controlled scheduler, judged by ghost-table oracles; delta-debugging shrinker",
+    }
+
+
+def _pure_text(engine, what, ref, technique):
+    return {"engine": engine, "level": what, "design_ref": ref,
+            "note": "Trusted base: rapidcheck, libstdc++ 12 (uniform_real_distribution, powl), g++ 12 ASan/UBSan, the stated tolerances. A pass means no counter-example among the generated inputs.",
+            "technique": technique}
+
+
+MANIFEST_TEXT.update({
+    "C04": _thread_text("After every individually observed ForwardGlobalEpoch the coordinator fetches the published list through GetProtectedEpochs(): every guard that was "
+                        "completely created before the forward started and is still alive must be in the list and >= GetMinEpoch(). Histories force ID reuse by exiting/late threads.",
+                        "DESIGN.md 5/C04"),
+    "C05": _thread_text("Every GetThreadID result is < capacity, equal to the thread's earlier results and not owned by another thread that is still running user code; "
+                        "generated probe starts incl. full collisions and wrap-around, oversubscription.", "DESIGN.md 5/C05"),
+    "C14": _thread_text("Oversubscribed histories: no STUCK while holders can still exit, and after all threads exited `capacity` fresh threads all obtain distinct IDs.", "DESIGN.md 5/C14"),
+    "C15": _thread_text("At the return of a thread's first GetThreadID every heartbeat handed out to earlier owners of that ID must be expired; heartbeats are unexpired "
+                        "while the thread runs and expired after it exited. Preemption between the individual steps of the exit path is generated.", "DESIGN.md 5/C15"),
+    "C16": _thread_text("Epoch starts at 256 and grows by exactly one per forward (incl. bulk forwards across node boundaries); global monotonicity of GetCurrentEpoch and "
+                        "GetMinEpoch <= later GetCurrentEpoch; quiescent forwards publish exactly {cur, cur-1}.", "DESIGN.md 5/C16"),
+    "C17": _thread_text("At GetProtectedEpochs return: list strictly descending, front == guard epoch, contains epoch-1; snapshot compared again before the guard ends; "
+                        "ASan on list-node memory; workers stalled between any two atomic steps while the coordinator performs up to ~600 forwards.", "DESIGN.md 5/C17"),
+    "C20": _pure_text("rapidcheck rc::state (harness/epoch_seq, capacities 5/3/2)",
+                      "Model-based (state-machine) testing of sequential histories: after every single forward list == reference set, GetMinEpoch == its minimum, "
+                      "live list nodes <= referenced 256-epoch ranges + 2; destroying the manager frees every node.", "DESIGN.md 5/C20",
+                      "stateful property-based testing: rapidcheck state-machine commands (Pin/Unpin/Forward/ExitAndReplace) against a reference set model, native shrinking"),
+    "C06": _pure_text("rapidcheck generators + scripted 64-bit engine (harness/zipf_harness)",
+                      "min <= v <= max and GetCDF(v-min-1) <= u <= GetCDF(v-min) with u recomputed from a copy of the engine; engine words aimed exactly at / 1 ulp around "
+                      "CDF breakpoints, first/last bin, the 99/100 seam; default generators return 0.", "DESIGN.md 5/C06",
+                      "property-based testing: rapidcheck-generated (class, type, min, n, alpha, engine word) with an inverse-CDF validity oracle; native shrinking"),
+    "C18": _pure_text("rapidcheck generators + long-double reference (harness/zipf_harness)",
+                      "Every bin of GetCDF compared with Kahan-summed long-double partial sums (exact class: rounding bound, monotone, last bin == 1; approx class: "
+                      "bit-identical for n <= 100, last bin == 1, within 0.01 for n >= 1000 and alpha in [0,3]).", "DESIGN.md 5/C18",
+                      "property-based testing: differential check of GetCDF against an independent long-double reference over generated (n, alpha, type, min)"),
+    "C19": _pure_text("rapidcheck generators (harness/zipf_harness)",
+                      "Metamorphic/differential: twins, copies, moved and re-sampled generators give identical sequences from identical engine states; a shared const "
+                      "generator gives each of 2-8 threads its solo sequence; max < min throws.", "DESIGN.md 5/C19",
+                      "property-based testing: metamorphic relations over generated parameters, engine seeds and sequence lengths"),
+})
+
+NOT_APPLICABLE = []
